@@ -109,11 +109,16 @@ func Restore(db chain.DB, img Image) error {
 type Rec struct {
 	Inner   chain.DB
 	Flushes int
-	Puts    int
-	Dels    int
-	OnFlush func(n int)
+	// FailedFlushes counts the commits FailFlush made fail
+	FailedFlushes int
+	Puts          int
+	Dels          int
+	OnFlush       func(n int)
 	// OnBeforeFlush is called right before the inner Flush
 	OnBeforeFlush func()
+	// FailFlush, when it returns an error, makes this Flush fail with it: the pending batch is
+	// discarded (what a Bolt transaction does when its commit fails) and nothing is committed
+	FailFlush func() error
 	// GetLog, when non-nil, receives every (bucket, key) read
 	GetLog func(bucket string, key []byte)
 }
@@ -153,6 +158,13 @@ func (r *Rec) CreateBucket(name []byte) (chain.DBBucket, error) {
 func (r *Rec) Flush() error {
 	if r.OnBeforeFlush != nil {
 		r.OnBeforeFlush()
+	}
+	if r.FailFlush != nil {
+		if err := r.FailFlush(); err != nil {
+			r.Inner.Cancel()
+			r.FailedFlushes++
+			return err
+		}
 	}
 	err := r.Inner.Flush()
 	r.Flushes++
